@@ -46,7 +46,12 @@ DOCS = [
     "plain paragraph\nsecond line\n",
     "#  h1\n\n###  h3 \n",
     "<!-- pyml disable-next-line md009-->\ntext   \nmore   \n",
+    # cross-file parser state: a definition in a failing file must not reach the files after it
+    "[api]: /url 'title'\n[other]: /o\n\nuses [api] and [other]   \n",
+    "see [ api ] and [api] and [other][] here   \nmore\ttext\n",
 ]
+N_LEGACY_DOCS = 12
+EXTRA_TRIPLES = [[12, 13, 0], [13, 12, 13], [12, 1, 13], [5, 12, 13]]
 P_KINDS = [("scan-only", False, 0), ("fix0", True, 0), ("fix2", True, 2)]
 MAX_K = 90
 MAX_J = 9
@@ -59,9 +64,9 @@ def universe_hash():
 def _cases():
     """Frozen list of case descriptors (order is part of the universe)."""
     out = []
-    nd = len(DOCS)
-    for t in range(10):
-        triple = [(t * 5) % nd, (t * 5 + 1 + t % 3) % nd, (t * 7 + 2) % nd]
+    nd = N_LEGACY_DOCS
+    for t in range(10 + len(EXTRA_TRIPLES)):
+        triple = [(t * 5) % nd, (t * 5 + 1 + t % 3) % nd, (t * 7 + 2) % nd] if t < 10 else EXTRA_TRIPLES[t - 10]
         for mode in ("scan", "fix"):
             for coe in (False, True):
                 for role in ("first", "last"):
